@@ -25,18 +25,24 @@ from harness import common, scriptlib as sl
 PROP = 'C04'
 THEOREMS = ['C04_trace', 'C04_terminates', 'C04_const', 'C04_sum', 'C04_fixed_len', 'C04_edit_distance', 'C04_string',
             'C04_lists', 'C04_lists_trace', 'C04_collection', 'C04_bracket_lo', 'C04_bracket_hi', 'C04_bracket_matcher',
-            'C04_matcher', 'C04_multiset', 'C04_docs', 'C04_docs_trace']
-MODELS = ['theories/MachineSpec.vo', 'theories/MachineModel.vo']
-HEADER = ('From Coq Require Import ZArith List Bool.\nRequire Import GT.PyBase GT.Data GT.MachineSpec.\n'
+            'C04_matcher', 'C04_multiset', 'C04_docs', 'C04_docs_trace', 'C04_guard_bound_no_null', 'C04_guard_bound_default_lists',
+            'C04_docs_none', 'C04_guard_refuted', 'C04_search']
+MODELS = ['theories/MachineSpec.vo', 'theories/MachineGuardSpec.vo', 'theories/MachineModel.vo']
+HEADER = ('From Coq Require Import ZArith List Bool.\nRequire Import GT.PyBase GT.Data GT.MachineSpec GT.MachineGuardSpec.\n'
           'Import ListNotations.\nOpen Scope Z_scope.\n')
 MODEL_HEADER = 'Require Import GT.MachineModel.\n'
 MODELLED = ['ConstantCostEdit (Match/Replace/Remove/Insert)', 'KeyValuePairEdit (sum combinator; XMLElementEdit, DataClassEdit, '
             'PyObjEdit are the same combinator)', 'repeat_until_tightened', 'FixedLengthSequenceEdit', 'EditDistance',
-            'StringEdit', 'EditCollection / FixedKeyDictNodeEdit (children\'s initial upper bounds within cost_upper_bound)',
+            'StringEdit', 'EditCollection / FixedKeyDictNodeEdit (children\'s initial upper bounds within cost_upper_bound: proved for '
+            'documents without multisets whose target has no null or whose lists have the default options, C04_docs_none; false '
+            'otherwise, C04_guard_refuted = open finding D41)',
             'WeightedBipartiteMatcher (make_distinct and the assignment solver as oracles, all answers)',
-            'MultiSetEdit over multisets without repeated elements', 'Edge (pure delegation)']
+            'MultiSetEdit over multisets without repeated elements', 'Edge (pure delegation)',
+            'IterativeTighteningSearch (C04_search: contract of the search model of SearchModel.v over sound, strictly shrinking '
+            'items; the model is tied to search.py by C17\'s trace correspondence)']
 TRACE_ONLY = ['MultiSetEdit / WeightedBipartiteMatcher on directly built MultiSetNodes with repeated elements (ext stream; D36)',
-              'IterativeTighteningSearch', 'PossibleEdits']
+              'PossibleEdits (bounds()/tighten_bounds() delegate to its IterativeTighteningSearch, C04_search; the pruning of '
+              'invalid alternatives in its `valid` property is not modelled)']
 
 CLS = {'KeyValuePairEdit': 'CSum', 'XMLElementEdit': 'CSum', 'DataClassEdit': 'CSum', 'PyObjEdit': 'CSum',
        'FixedLengthSequenceEdit': 'CFixedLen', 'EditDistance': 'CEditDist', 'StringEdit': 'CStr',
@@ -577,6 +583,17 @@ def gen_items(tier, rng):
     for k, (a, b) in enumerate(ext_pairs):
         items.append({'a': a, 'b': b, 'opts': list(sl.OPTION_SETS[k % 9]), 'mode': 'passive' if k % 4 == 3 else 'active',
                       'ext': True})
+    n_budget = 45 if q else 600
+    for k in range(n_budget):          # around the budget guard of FixedKeyDictNodeEdit (C04_docs_none / open finding D41):
+        # fixed-length alignments of short scalars with nulls below a mapping, dictionary strategy none
+        n = rng.randint(1, 7)
+        src = [rng.choice(['', 'a', 1, 'ab', None, True]) for _ in range(n)]
+        dst = [None if rng.random() < 0.75 else rng.choice(['', 'b', 2]) for _ in range(n)]
+        key = rng.choice(['', 'k', 'key'])
+        a, b = {key: src}, {key: dst}
+        if k % 5 == 4:
+            a['z'], b['z'] = [src], [dst]
+        items.append({'a': a, 'b': b, 'opts': ['none', ['off', 'same', 'on'][k % 3]], 'mode': 'passive' if k % 7 == 6 else 'active'})
     for k in range(n_search):          # IterativeTighteningSearch / PossibleEdits over alternative edits
         a = sl.gen_value(rng, 2, 3)
         bs = [sl.mutate(rng, a) for _ in range(rng.randint(1, 4))]
@@ -596,7 +613,8 @@ def open_findings():
     return fs
 
 
-KF_CLASSES = [('D36', 'kf_multiset_duplicates_C04')]      # (finding id, Gallina class predicate); applied to ext cases only
+# (finding id, Gallina class predicate, stream it applies to: directly built multisets / documents built from JSON)
+KF_CLASSES = [('D36', 'kf_multiset_duplicates_C04', 'ext'), ('D41', 'kf_collection_budget_C04', 'plain')]
 EXT_GUARD = 8          # wall-clock seconds per ext item (D36 can make repeat_until_tightened spin for ever)
 TIMEOUT_EXCS = ('ItemGuardTimeout',)
 
@@ -651,7 +669,7 @@ def evaluate(run, wd, st, items, tag='cases'):
             stats['root_classes'][c] = stats['root_classes'].get(c, 0) + 1
     header = HEADER
     evals = ['bad_cases (fun c => holds_C04 (cc_case c))']
-    evals += [f'bad_cases (fun c => negb ({kf} (cc_case c)))' for _, kf in KF_CLASSES]
+    evals += [f'bad_cases (fun c => negb ({kf} (cc_case c)))' for _, kf, _ in KF_CLASSES]
     if st['models_ok']:
         header += MODEL_HEADER
         evals += ['bad_cases corr_C04', 'bad_cases (fun c => negb (modelled_C04 c))']
@@ -702,11 +720,13 @@ def describe(wd, it, o, tag):
 def classify(it, o, i, kfs, open_ids):
     """Open known findings a failing case belongs to.  D36 (duplicates collapse in WeightedBipartiteMatcher) is only
     reachable through directly built multisets (ext cases) and shows as (a) a drive that does not terminate or
-    (b) a WeightedBipartiteMatcher object whose own trace violates a clause (Gallina kf_matcher_fails)."""
-    if not it.get('ext'):
-        return []
-    known = [k for (k, _), idx in zip(KF_CLASSES, kfs) if i in idx and k in open_ids]
-    if not known and 'D36' in open_ids and timed_out(o):
+    (b) a WeightedBipartiteMatcher object whose own trace violates a clause (Gallina kf_matcher_fails).
+    D41 (a FixedKeyDictNodeEdit whose children cost more than its cost_upper_bound invalidates itself) concerns documents
+    built from JSON only: Gallina kf_collection_budget_C04 (no multiset, outside both sufficient conditions of
+    C04_docs_none, and an EditCollection object observed with the bounds (-inf, +inf))."""
+    stream = 'ext' if it.get('ext') else 'plain'
+    known = [k for (k, _, where), idx in zip(KF_CLASSES, kfs) if where == stream and i in idx and k in open_ids]
+    if stream == 'ext' and not known and 'D36' in open_ids and timed_out(o):
         known = ['D36']
     return known
 
@@ -783,7 +803,8 @@ def check(tier, seed):
         run.cov['rule'] = ('pairs of JSON documents built by graphtage.json.build_tree: corpus; fixed pairs; list/string documents '
                            '(nested lists of scalars and strings, near-tie mutations in several places, deep chains with siblings) '
                            'under list edits on/off/off-when-same-length; arbitrary documents under the 9 option sets; key/value '
-                           'pairs as roots; IterativeTighteningSearch/PossibleEdits over alternative targets.  Every Bounded object '
+                           'pairs as roots; short-scalar/null lists below FixedKeyDictNodes around the cost_upper_bound guard (D41); '
+                           'IterativeTighteningSearch/PossibleEdits over alternative targets.  Every Bounded object '
                            'created is monitored (classes wrapped from outside), driven to completion and queried; active observer = '
                            'bounds() before and after every outermost tighten_bounds() of every object, passive observer = TreeNode.diff '
                            'and get_all_edits with only the library\'s own bounds() calls.  non-trivial = the documents differ and one is '
@@ -809,7 +830,7 @@ def replay(path):
         return 1
     wd = common.Workdir(PROP + 'r')
     try:
-        common.build(['theories/MachineSpec.vo'], ['theories/MachineSpec.vo'])
+        common.build(['theories/MachineSpec.vo', 'theories/MachineGuardSpec.vo'], ['theories/MachineSpec.vo', 'theories/MachineGuardSpec.vo'])
         r = common.run_impl('pC04', 'impl_trace', [it], nproc=1)[0]
         print(json.dumps(r)[:3000])
         if 'ok' not in r:
